@@ -217,6 +217,47 @@ func (g *c10Gen) tokenItems() {
 	add("token/session/nokey", c10HelloV2("hv2s", "", c10Burl1, c10TokPlaceholder(1, &hdV2Tok{Alg: 3, Signer: 2, Iat: hdIntp(-5), Exp: hdIntp(300)}, "")), 1, 2)
 }
 
+// The lifetime claims once more, beyond the classes above: every way a correctly signed token can fail to be
+// "currently time-valid" (P_C10: must_refuse_hello - no iat, no exp, exp before iat, exp / iat / nbf beyond twice
+// the leeway) and the neighbours that are valid, each as client hello (auth type absent and written out) and as
+// federation hello, with the three RSA methods: the server has one code path per auth type (its own claims type),
+// so a check that is made for one type only shows here.
+func c10TokTimeClasses() []c10TokClass {
+	p := hdIntp
+	tk := func(alg int, iat, nbf, exp *int) hdV2Tok { return hdV2Tok{Alg: alg, Signer: 1, Iat: iat, Nbf: nbf, Exp: exp} }
+	return []c10TokClass{
+		{"no-exp-issued-long-ago", 0, tk(0, p(-31536000), nil, nil), ""},
+		{"no-exp-rs512", 0, tk(2, p(-5), nil, nil), ""},
+		{"no-exp-with-nbf", 0, tk(0, p(-5), p(-5), nil), ""},
+		{"no-iat-with-nbf", 0, tk(0, nil, p(-10), p(300)), ""},
+		{"no-iat-rs384", 0, tk(1, nil, nil, p(300)), ""},
+		{"nbf-only", 0, tk(0, nil, p(-5), nil), ""},
+		{"exp-before-iat-both-in-leeway", 0, tk(0, p(30), nil, p(-30)), ""},
+		{"exp-before-iat-future", 0, tk(0, p(40), nil, p(20)), ""},
+		{"exp-before-iat-by-one", 0, tk(0, p(-5), nil, p(-6)), ""},
+		{"exp-equals-iat", 0, tk(0, p(-5), nil, p(-5)), ""},
+		{"expired-a-day-ago", 0, tk(0, p(-90000), nil, p(-86400)), ""},
+		{"expired-just-beyond", 0, tk(0, p(-600), nil, p(-125)), ""},
+		{"issued-just-beyond", 0, tk(0, p(125), nil, p(900)), ""},
+		{"nbf-just-beyond", 0, tk(0, p(-5), p(125), p(900)), ""},
+		{"valid-long", 0, tk(2, p(-5), p(-5), p(86400)), ""},
+	}
+}
+
+func (g *c10Gen) tokenTimeItems() {
+	for _, c := range c10TokTimeClasses() {
+		ph := c10TokPlaceholder(c.b, &c.tok, c.garble)
+		for _, ty := range []string{"", "client", "federation"} {
+			n := ty
+			if n == "" {
+				n = "default"
+			}
+			g.items = append(g.items, c10Item{"token-time/" + n + "/" + c.name, c10HelloV2("hvt", ty, c10Burl, ph), []int{0}})
+			g.hist["hello_v2_tokens"]++
+		}
+	}
+}
+
 // one random 2.0 hello for the seeded stream: a good token or a mutation of one (hdV2Mutate: the
 // classes of the hub generators), sometimes garbled, for one of the three backends, as client or federation
 func c10RandomTokenItem(r *vrng) c10Item {
